@@ -218,6 +218,17 @@ def run(ctx):
             lr = core.run_cases(ctx, "harness.lib", "call_parse", lc, nproc=4, env={"TZ": tzenv})
             cases += lc
             results += lr
+    if not rep:
+        # with TIMEZONE given explicitly the zone of the PROCESS must not matter: a sample of the cases above (all those
+        # whose TIMEZONE sits at offset zero - UTC, Abidjan, London in winter - and a share of the rest) runs again in
+        # workers whose TZ is far from UTC
+        main = [c for c in cases if not c.get("tzenv")]
+        pick = [c for c in main if c["offTz"] == 0 or c["parser"] == "relative"][: (1500 if ctx.quick() else 20000)]
+        pick += rng.sample(main, min(len(main), 1000 if ctx.quick() else 15000))
+        for tzenv in ["America/New_York", "Asia/Kolkata"] if ctx.quick() else ["America/New_York", "Asia/Kolkata", "Pacific/Kiritimati", "America/St_Johns"]:
+            sub = [dict(c, tzenv="process " + tzenv) for c in pick[:: (2 if ctx.quick() else 1)]]
+            cases += sub
+            results += core.run_cases(ctx, "harness.lib", "call_parse", sub, env={"TZ": tzenv})
     records = []
     for i, (c, r) in enumerate(zip(cases, results)):
         records.append({"tid": i, "parser": c["parser"], "own": c["own"], "w": c["w"], "offA": c["offA"], "offT": c["offT"], "offTz": c["offTz"],
